@@ -309,6 +309,17 @@ class Interp:
                         cur.pop()
                 self.charts[i]["extra"] = cur or None
                 self.labels.add("extradata-edited-in-place")
+        elif kind == "cnotes_rename":  # SSC only: move the note data to the other spelling, carrying the same string object
+            i = self._chart(op[1])
+            if i is not None:
+                cur = "NOTES" if m_has(self.charts[i], "NOTES") else "NOTES2"
+                other = "NOTES2" if cur == "NOTES" else "NOTES"
+                c = o.charts[i]
+                c[other] = c.pop(cur)
+                v = m_get(self.charts[i], cur)
+                m_del(self.charts[i], cur)
+                m_set(self.charts[i], other, v)
+                self.labels.add("notes-key-renamed")
         elif kind == "cdel":  # SSC only; never the note key
             i = self._chart(op[1])
             if i is not None and m_has(self.charts[i], op[2]):
